@@ -59,6 +59,42 @@ def has_atom(have, name, x, y):
     return False
 
 
+def has_offset_bound(facts, diff_seconds, rate, max_tol=sp.Rational(1, 2)):
+    """A fact |E| <= tol (tol a number of at most half a sample) known true at the join, E being the given time difference expressed in
+    samples (diff*rate, either sign): the contiguity test spelled as an offset in samples instead of a closeness of two Times."""
+    found = []
+
+    def visit(f, pos):
+        if isinstance(f, sp.Not):
+            visit(f.args[0], not pos)
+        elif isinstance(f, sp.And) and pos:
+            for a in f.args:
+                visit(a, True)
+        elif isinstance(f, sp.Or) and not pos:
+            for a in f.args:
+                visit(a, False)
+        elif isinstance(f, (sp.Le, sp.Lt, sp.Ge, sp.Gt)):
+            l, r = f.lhs, f.rhs
+            if isinstance(f, (sp.Ge, sp.Gt)):
+                l, r = r, l                       # now "l <(=) r" when pos
+            if not pos:
+                l, r = r, l                       # not (a <= b)  ==  b < a
+            found.append((l, r))
+    for f in facts:
+        visit(f, True)
+    want = sp.simplify(diff_seconds * rate)
+    for l, r in found:
+        if not (r.is_number and 0 < r <= max_tol and isinstance(l, sp.Abs)):
+            continue
+        try:
+            e = sp.simplify(l.args[0])
+            if sp.simplify(e - want) == 0 or sp.simplify(e + want) == 0:
+                return True
+        except Exception:
+            continue
+    return False
+
+
 def mk(prog, cls, k, nchan, start=True, align="center", same_sr=False, same_bw=False, extra=(), zero_len=False):
     n = sp.Integer(0) if zero_len else sp.Symbol(f"N{k}", integer=True, positive=True)
     sr = sp.Symbol("SR0" if same_sr else f"SR{k}", positive=True)
@@ -109,7 +145,8 @@ def check(run, prog):
                 continue
             ck.same("R2", fi.where, f"guard: time contiguity of piece {k} " + tag,
                     "start_k is compared with ref + (samples before piece k)/sample_rate, ref fixed by the first piece with a start time",
-                    has_atom(have, "TClose", ref + before(k) / sr0, syms[k]["t0"] / Hz),
+                    has_atom(have, "TClose", ref + before(k) / sr0, syms[k]["t0"] / Hz)
+                    or has_offset_bound(ev.last_frame.facts, (syms[k]["t0"] / Hz - ref) - before(k) / sr0, sr0),
                     found=f"time facts: {[str(a)[:90] for a in have if a.func.__name__ == 'TClose']}", nontrivial=True)
         if radio:
             for k in (1, 2):
